@@ -55,6 +55,8 @@ theorem pcOf_eq (s : State) (t : Nat) : pcOf s t = (getT s.thr t).pc := by
 @[simp] theorem setThr_started (s : State) (t : Nat) (x : Thread) : (setThr s t x).started = s.started := rfl
 @[simp] theorem setThr_finished (s : State) (t : Nat) (x : Thread) : (setThr s t x).finished = s.finished := rfl
 @[simp] theorem setThr_thrown (s : State) (t : Nat) (x : Thread) : (setThr s t x).thrown = s.thrown := rfl
+@[simp] theorem setThr_destroyed (s : State) (t : Nat) (x : Thread) : (setThr s t x).destroyed = s.destroyed := rfl
+@[simp] theorem setThr_dropped (s : State) (t : Nat) (x : Thread) : (setThr s t x).dropped = s.dropped := rfl
 
 /-- unfold `step`, split all its branches, normalise the result state -/
 syntax "pool_step_cases " ident : tactic
@@ -511,9 +513,9 @@ structure InvB (cfg : Cfg) (s : State) : Prop where
   mutex : ∀ t, (holds (getT s.thr t).pc = true ↔ s.owner = some t)
   role : ∀ t, rolePc (getT s.thr t).role (getT s.thr t).pc = true
   busy : s.busy = s.thr.countP inBusy
-  done : s.done + s.thr.countP pendDone = s.finished.length
-  run : ∀ id, id ∈ s.started → id ∈ s.finished ∨ ∃ w, running (getT s.thr w) = true ∧ jobId (getT s.thr w) = id
-  runCnt : s.started.length = s.finished.length + s.thr.countP running
+  done : s.done + s.thr.countP pendDone = s.destroyed.length
+  run : ∀ id, id ∈ s.started → id ∈ s.destroyed ∨ ∃ w, running (getT s.thr w) = true ∧ jobId (getT s.thr w) = id
+  runCnt : s.started.length = s.destroyed.length + s.thr.countP running
   lueQ' : ∀ t k, (getT s.thr t).pc = .call k .loadBusy → (script cfg (getT s.thr t))[k]? = some .lue → s.queue = []
   lueQ : ∀ t k, ((getT s.thr t).pc = .call k .fence ∨ (getT s.thr t).pc = .call k .unlock) →
     (script cfg (getT s.thr t))[k]? = some .lue → s.queue = [] ∧ s.busy = 0
@@ -573,7 +575,7 @@ theorem one_le_countP {α : Type} (p : α → Bool) (l : List α) (t : Nat) (h :
   List.countP_pos_iff.mpr ⟨l[t], List.getElem_mem h, hp⟩
 
 theorem done_step {cfg : Cfg} {s : State} {t c : Nat} {o} (h : step cfg s t c = some o) (hi : InvB cfg s) :
-    o.st.done + o.st.thr.countP pendDone = o.st.finished.length := by
+    o.st.done + o.st.thr.countP pendDone = o.st.destroyed.length := by
   have hb := hi.done
   have hr := hi.role t
   pool_step_cases h
@@ -584,17 +586,17 @@ theorem done_step {cfg : Cfg} {s : State} {t c : Nat} {o} (h : step cfg s t c = 
     simp only [setThr_thr]
     rw [countP_set' _ _ _ _ hlt, hge, hth]
     rw [hth] at hr
-    simp_all [pendDone, endOfScriptFin])
+    simp_all [pendDone, endOfScriptDes])
   all_goals (first
     | (have := one_le_countP pendDone s.thr t hlt (by rw [hge]; simp [pendDone, *]); omega)
     | (subst hth
        simp only [pendPc_endOfScript]
-       unfold endOfScriptFin at *
+       unfold endOfScriptDes at *
        cases hrole : (getT s.thr t).role <;> simp_all <;> omega))
 
 
 theorem runCnt_step {cfg : Cfg} {s : State} {t c : Nat} {o} (h : step cfg s t c = some o) (hi : InvB cfg s) :
-    o.st.started.length = o.st.finished.length + o.st.thr.countP running := by
+    o.st.started.length = o.st.destroyed.length + o.st.thr.countP running := by
   have hb := hi.runCnt
   have hr := hi.role t
   pool_step_cases h
@@ -605,7 +607,7 @@ theorem runCnt_step {cfg : Cfg} {s : State} {t c : Nat} {o} (h : step cfg s t c 
     simp only [setThr_thr]
     rw [countP_set' _ _ _ _ hlt, hge, hth]
     rw [hth] at hr
-    simp_all [running, endOfScriptFin])
+    simp_all [running, endOfScriptDes])
   all_goals (first
     | omega
     | (rw [runPc_endOfScript _ _ _ (by assumption)]; done)
@@ -624,7 +626,7 @@ theorem runCnt_step {cfg : Cfg} {s : State} {t c : Nat} {o} (h : step cfg s t c 
 
 
 theorem run_step {cfg : Cfg} {s : State} {t c : Nat} {o} (h : step cfg s t c = some o) (hi : InvB cfg s) :
-    ∀ id, id ∈ o.st.started → id ∈ o.st.finished ∨ ∃ w, running (getT o.st.thr w) = true ∧ jobId (getT o.st.thr w) = id := by
+    ∀ id, id ∈ o.st.started → id ∈ o.st.destroyed ∨ ∃ w, running (getT o.st.thr w) = true ∧ jobId (getT o.st.thr w) = id := by
   have hrun := hi.run
   have hr := hi.role t
   pool_step_cases h
@@ -651,7 +653,7 @@ theorem run_step {cfg : Cfg} {s : State} {t c : Nat} {o} (h : step cfg s t c = s
   · -- a client with an empty script
     intro id hid
     have hid' : id ∈ s.started := hid
-    have hfin : endOfScriptFin s ‹Thread› = s.finished := by unfold endOfScriptFin; simp [*]
+    have hfin : endOfScriptDes s ‹Thread› = s.destroyed := by unfold endOfScriptDes; simp [*]
     rcases hrun id hid' with hf | ⟨w, hw, hj⟩
     · left; simp only [hfin]; exact hf
     · right
@@ -678,14 +680,14 @@ theorem run_step {cfg : Cfg} {s : State} {t c : Nat} {o} (h : step cfg s t c = s
     have hid' : id ∈ s.started := hid
     rcases hrun id hid' with hf | ⟨w, hw, hj⟩
     · left
-      unfold endOfScriptFin
+      unfold endOfScriptDes
       split <;> simp [hf]
     · by_cases hwt : t = w
       · subst hwt
         left
         rw [hth] at hw hj
         have hrw : ‹Thread›.role = .worker := by simp_all [running]
-        unfold endOfScriptFin
+        unfold endOfScriptDes
         simp [hrw, hj]
       · right
         exact ⟨w, by simp only [setThr_thr, getT_set, hwt, false_and, if_false]; exact hw,
@@ -706,7 +708,7 @@ theorem mainScriptPc_eq_call {cfg : Cfg} {k : Nat} {c : CPc} (h : mainScriptPc c
 @[simp] theorem script_mk_pc (cfg : Cfg) (th : Thread) (pc : Pc) :
     script cfg { role := th.role, pc := pc, job := th.job } = script cfg th := rfl
 @[simp] theorem script_endOfScript (cfg : Cfg) (th : Thread) : script cfg (endOfScript cfg th) = script cfg th := by
-  unfold script fullScript; simp
+  unfold script bodyScript dtorScript fullScript; simp
 @[simp] theorem throws_mk_pc (cfg : Cfg) (th : Thread) (pc : Pc) :
     throws cfg { role := th.role, pc := pc, job := th.job } = throws cfg th := rfl
 
@@ -723,7 +725,7 @@ theorem mainScriptPc_eq_call' {cfg : Cfg} {k : Nat} {c : CPc} (h : mainScriptPc 
     | nil => simp [hm] at hne
     | cons a l => exact ⟨a, rfl⟩
 theorem script_main (cfg : Cfg) (th : Thread) (h : th.role = .main) : script cfg th = mainScript cfg := by
-  unfold script fullScript mainScript; simp [h]
+  unfold script bodyScript dtorScript fullScript mainScript; simp [h]
 theorem getElem?_zero_of_ne_nil {α : Type} {l : List α} (h : ¬ l = []) : ∃ a, l[0]? = some a := by
   cases l with
   | nil => exact absurd rfl h
@@ -750,17 +752,30 @@ theorem mem_takeWhile {α : Type} (p : α → Bool) : ∀ (l : List α) (a : α)
         exact ⟨this.1, Or.inr this.2⟩
     · simp at h
 
-/-- the executed script never contains a `throw` -/
-theorem script_ne_throw {cfg : Cfg} {th : Thread} {k : Nat} (h : (script cfg th)[k]? = some .throw) : False := by
-  have hm := List.mem_of_getElem? h
-  unfold script at hm
-  have := (mem_takeWhile _ _ _ hm).1
-  simp at this
+/-- the destructor's calls are calls of the destructor table -/
+theorem mem_dtorScript {cfg : Cfg} {th : Thread} {a : Act} (h : a ∈ dtorScript cfg th) :
+    a ≠ .throw ∧ th.role = .worker ∧ ∃ j, th.job = some j ∧ a ∈ cfg.dprog j.code := by
+  unfold dtorScript at h
+  split at h
+  · rename_i j hr hj
+    have := mem_takeWhile _ _ _ h
+    exact ⟨by simpa using this.1, hr, j, hj, this.2⟩
+  · simp at h
 
-/-- the executed calls are calls of the thread's full script -/
-theorem mem_script {cfg : Cfg} {th : Thread} {a : Act} (h : a ∈ script cfg th) : a ∈ fullScript cfg th := by
+/-- the executed calls are calls of the thread's body or of the destructor of its job's closure -/
+theorem mem_script {cfg : Cfg} {th : Thread} {a : Act} (h : a ∈ script cfg th) :
+    a ≠ .throw ∧ (a ∈ fullScript cfg th ∨ ∃ j, th.job = some j ∧ th.role = .worker ∧ a ∈ cfg.dprog j.code) := by
   unfold script at h
-  exact (mem_takeWhile _ _ _ h).2
+  rw [List.mem_append] at h
+  rcases h with h | h
+  · have := mem_takeWhile _ _ _ h
+    exact ⟨by simpa [bodyScript] using this.1, Or.inl this.2⟩
+  · obtain ⟨h1, hr, j, hj, hm⟩ := mem_dtorScript h
+    exact ⟨h1, Or.inr ⟨j, hj, hr, hm⟩⟩
+
+/-- the executed script never contains a `throw` -/
+theorem script_ne_throw {cfg : Cfg} {th : Thread} {k : Nat} (h : (script cfg th)[k]? = some .throw) : False :=
+  (mem_script (List.mem_of_getElem? h)).1 rfl
 
 theorem callOkP_mk (cfg : Cfg) (th : Thread) (pc pc' : Pc) :
     callOkP cfg { role := th.role, pc := pc', job := th.job } pc = callOkP cfg th pc := by
